@@ -25,6 +25,7 @@ ROUTES = {  # kind -> (pattern elements without trailing slash, binding names)
     'two': '/<x>/<y?>',
     'root1': '/<x>',
     'typed': '/n/<k:int>/<x>',
+    'root': '',          # the bare root pattern '/': a branch route; under an embedding prefix it is '<prefix>/'
 }
 METHOD_SETS = [None, None, ['GET'], ['POST'], ['GET', 'POST']]
 REQ_METHODS = ['GET', 'GET', 'GET', 'HEAD', 'POST', 'PUT', 'DELETE', 'OPTIONS', 'PATCH']
@@ -95,7 +96,7 @@ def make_ep(rid, names, nb=False):
 def build(case):
     from clastic import Application, Route, SubApplication
     base = ROUTES[case['kind']]
-    pattern = base + ('/' if case['branch'] else '')
+    pattern = base + ('/' if case['branch'] or not base else '')
     parsed = U.parse(pattern)
     names = [e[1] for e in parsed[0] if e[0] == 'b']
     route = Route(pattern, make_ep(0, names), methods=case['methods'], slash_mode=case['route_mode'])
@@ -136,7 +137,9 @@ def build(case):
     if front_route:
         table.insert(0, M.Entry(2, front_pattern, ['PATCH'] if front == 'method' else None, 'answer' if front == 'method' else 'nbret404',
                                 (case.get('front_mode') or 'rewrite') if front == 'same-nb' else case['app_mode']))
-    if case['decoy']:
+    if case['decoy'] and (prefix + pattern) != '/':
+        # (not beside the un-embedded root route: '/<dq*>' on the path '/' in strict mode is the recorded C05 finding
+        # strict-root-all-optional, which is not this property's business)
         dm = case.get('decoy_methods')
         app.add(Route('/<dq*>', make_ep(1, ['dq']), methods=dm))
         table.append(M.Entry(1, '/<dq*>', dm, 'answer', case['app_mode']))
@@ -156,7 +159,7 @@ def make_path(case, full_pattern):
             segs.extend((pool * 2)[:case['nmulti']])
         else:
             segs.append(pool.pop(0) if pool else 'v')
-    canonical = '/' + '/'.join(segs) + ('/' if parsed[1] else '')
+    canonical = ('/' + '/'.join(segs) + ('/' if parsed[1] else '')) if segs else '/'
     mut = case['mutation']
     path = canonical
     slashes = [i for i, c in enumerate(path) if c == '/']
